@@ -7,6 +7,8 @@ import RimeModel.Session.GeoProc
 import RimeModel.Session.GeoLoop
 import RimeModel.Session.PunctComposeGeo
 import RimeModel.Session.PunctComposeLoop
+import RimeModel.Session.RecogComposeGeo
+import RimeModel.Session.RecogPattern
 import RimeModel.Session.Shape
 import RimeModel.Session.GeoPrevProc
 import RimeModel.Session.GeoPrevCx
@@ -283,6 +285,80 @@ theorem punct_segmentation_loop_fuel_adequate (cfg : PSegCfg) (input : Bytes) (c
     let c2 := resetStage input caret c
     segLoopG (segStepP cfg) caret (c2.input.length + 2 + k) c2 = segLoopG (segStepP cfg) caret (c2.input.length + 2) c2 :=
   composeP_fuel_adequate cfg input caret h k
+
+/-- **the geometric invariant for schemas with the recognizer family**, for every timed history.  `ComposeGeoSpec` is
+discharged for `composeR` — any list of ascii_segmentor, matcher, abc_segmentor, punct_segmentor, affix_segmentor@…,
+fallback_segmentor, any pattern search functions (the regular expressions are not modelled: the theorem holds for all of
+them), any affix configurations — under `TranslateGeo` on the oracle and `FilterSub` on the filter.  The matcher pops
+segments only when GetMatch found the match's start among the segment starts, and the segment it then adds reaches the end
+of the input; the affix segmentor replaces the last segment `[j, k)` by prefix / code / suffix pieces that tile `[j, k)`;
+the recognizer processor only pushes input.  In every reachable state the segments tile a prefix of the composition's
+input. -/
+theorem geometry_reachable_recognizer (envOf : Bool → Env) (cfg : Bool → RSegCfg)
+    (henv : ∀ b, (envOf b).recompose = composeR (cfg b)) (htr : ∀ b, TranslateGeo (cfg b).toSegCfg)
+    (hf : ∀ b, FilterSub (cfg b).filter) (hnp : ∀ b, NoPrevMatch (envOf b)) (c0 : Ctx) (h0 : c0.comp.segs = [])
+    (ops : List (Nat × Op)) : GeoInv (runOpsT envOf c0 ops) :=
+  runOpsT_geo (fun b => by rw [henv b]; exact composeR_geo_spec (cfg b) (htr b) (hf b)) hnp ops (geoInv_of_no_segs h0)
+
+/-- non-vacuity: an affix segmentor on the default tag `abc` with prefix `d` and suffix `;` (both letters of the alphabet):
+`dab;` set through the API is prefix [0,1) / code [1,3) / suffix [3,4); `d;` has no code segment; `d` alone stays one
+segment, renamed `abc_prefix` -/
+example :
+    let a : AffixCfg := { prefix_ := [100], suffix := [59], tips := [68] }
+    let cfg : RSegCfg := { alphabet := [97, 98, 100, 59], initials := [97, 98, 100], finals := [], delimiters := [],
+                           translate := fun _ g => if g.tags.abc then [Cand.mk [65] [] [] g.start g.stop true] else [],
+                           segmentors := [.matcher, .abc, .affix a, .fallback] }
+    let env : Env := { recompose := composeR cfg }
+    let segs (w : Bytes) := (runOpsT (fun _ => env) {} [(0, .setInput w)]).comp.segs.map (fun g => (g.start, g.stop, g.tags.phony))
+    segs [100, 97, 98, 59] = [(0, 1, true), (1, 3, false), (3, 4, true)] ∧
+    segs [100, 59] = [(0, 1, true), (1, 2, true)] ∧
+    (runOpsT (fun _ => env) {} [(0, .setInput [100])]).comp.segs.map (fun g => (g.start, g.stop, g.tags.abc, g.tags.extra)) =
+      [(0, 1, false, ["abc_prefix"])] := by
+  decide
+
+/-- **the partial operations of the recognizer are in range** in every state reachable by a timed history on a schema
+with the recognizer family: `input.substr(k)` in RecognizerPatterns::GetMatch (called by Recognizer::ProcessKeyEvent on the
+raw input plus one character, with `k` the confirmed position of the current composition) has `k ≤ |input|` — the
+confirmed position lies within the segments, the segments within the composition's input (the geometric invariant),
+and that within the raw input (the C02 invariant); and `ctx->PushInput(ch)` inserts at a caret within the input. -/
+theorem no_partial_op_fails_recognizer (envOf : Bool → Env) (cfg : Bool → RSegCfg)
+    (henv : ∀ b, (envOf b).recompose = composeR (cfg b)) (htr : ∀ b, TranslateGeo (cfg b).toSegCfg)
+    (hf : ∀ b, FilterSub (cfg b).filter) (hnp : ∀ b, NoPrevMatch (envOf b)) (c0 : Ctx)
+    (h0 : c0.input = [] ∧ c0.caret = 0 ∧ c0.comp.segs = [] ∧ c0.comp.input = []) (ops : List (Nat × Op)) :
+    let c := runOpsT envOf c0 ops
+    c.comp.confirmedPos ≤ c.input.length ∧ c.caret ≤ c.input.length := by
+  have hgeo := geometry_reachable_recognizer envOf cfg henv htr hf hnp c0 h0.2.2.1 ops
+  have hinv : Inv (runOpsT envOf c0 ops) :=
+    runOpsT_inv (fun b => by rw [henv b]; exact composeR_spec (cfg b)) ops
+      ⟨⟨by rw [h0.1, h0.2.1]; exact Nat.le_refl _, by rw [h0.2.2.1]; exact SegsOK.nil⟩,
+        by rw [h0.2.2.2, h0.1]; exact Nat.le_refl _⟩
+  generalize runOpsT envOf c0 ops = c at hgeo hinv
+  have h1 := confirmedPos_le_end hgeo.geo
+  have h2 := hgeo.end_le
+  have h3 := hinv.cinput_le
+  exact ⟨by omega, hinv.caret_le⟩
+
+/-- **the partial operations of the matcher and the affix segmentor are in range** whenever the segmentation loop calls
+them (`LoopInv`: what `Compose` maintains from any reachable state): GetMatch's `input.substr(k)` has `k ≤ |input|`, and
+AffixSegmentor::Proceed's `input.substr(j, k - j)` has `j ≤ k ≤ |input|` (`k - j` does not wrap around) -/
+theorem recognizer_segmentors_substr_in_range (c : Comp) (h : LoopInv c) :
+    c.confirmedPos ≤ c.input.length ∧ c.currentStart ≤ c.currentEnd ∧ c.currentEnd ≤ c.input.length := by
+  have h1 := confirmedPos_le_end h.1
+  have h2 := currentStart_le_end h.1
+  have h3 := h.2
+  rw [currentEnd_eq]
+  exact ⟨by omega, h2, h3⟩
+
+/-- **the segmentation loop with the recognizer family: the model's fuel is never what stops it.**  The matcher may move
+the current start to the LEFT (it pops segments), and the affix segmentor moves it to the right inside a round; what the
+measure needs is that no segmentor moves the END of the segmentation to the left — then a round that continues starts
+strictly right of the previous one.  With the fuel `|input| + 2` the loop of `composeR` gives the same composition as
+with any larger fuel. -/
+theorem recognizer_segmentation_loop_fuel_adequate (cfg : RSegCfg) (input : Bytes) (caret : Nat) (c : Comp) (h : GeoOK c.segs)
+    (k : Nat) :
+    let c2 := resetStage input caret c
+    segLoopG (segStepR cfg) caret (c2.input.length + 2 + k) c2 = segLoopG (segStepR cfg) caret (c2.input.length + 2) c2 :=
+  composeR_fuel_adequate cfg input caret h k
 
 /-- **every `input_.substr(seg.start, seg.end - seg.start)` is in range** (Composition::GetCommitText /
 GetPreedit / GetScriptText / GetDebugText, ConcreteEngine::TranslateSegments).  In every reachable state, for
